@@ -7,17 +7,21 @@
 (*                               if now-start > rt': AdbTimeoutError                                      *)
 (* Adversary per transport call: the transport raises its timeout error after max(tt',1) ticks, or it     *)
 (* returns 0..need bytes after 1..max(tt',1) ticks; completed packets are never the awaited one (traffic  *)
-(* of other streams / unexpected commands).  Every transport call costs at least one tick.               *)
+(* of other streams / unexpected commands) - except that a command with a whole-command limit (total)   *)
+(* may also be fed data packets of its own stream for ever (a stream that is alive and never closes):     *)
+(*   _read_until_close:          start0; for each data packet: if now-start0 > total: AdbTimeoutError     *)
+(* Every transport call costs at least one tick.                                                          *)
 EXTENDS Integers, TLC
-CONSTANTS Grid, None, H, PMax, K
+CONSTANTS Grid, None, H, PMax, K,
+          SkipTotal   \* sanity mutation: data packets skip the whole-command check (must violate Bounded)
 Max(a, b) == IF a > b THEN a ELSE b
 Min(a, b) == IF a < b THEN a ELSE b
-VARIABLES tt0, rt0, total, now, start, pstart, need, phase, pc
-vars == <<tt0, rt0, total, now, start, pstart, need, phase, pc>>
+VARIABLES tt0, rt0, total, now, start, pstart, need, phase, pc, gotdata
+vars == <<tt0, rt0, total, now, start, pstart, need, phase, pc, gotdata>>
 RT == IF total = None THEN rt0 ELSE Min(rt0, total)
 TT == IF tt0 = None THEN RT ELSE Min(tt0, RT)
 Init == /\ rt0 \in Grid /\ tt0 \in Grid \cup {None} /\ total \in Grid \cup {None}
-        /\ now = 0 /\ start = 0 /\ pstart = 0 /\ need = H /\ phase = "hdr" /\ pc = "call"
+        /\ now = 0 /\ start = 0 /\ pstart = 0 /\ need = H /\ phase = "hdr" /\ pc = "call" /\ gotdata = FALSE
 Cost == 1..Max(TT, 1)
 Call == /\ pc = "call"
         /\ \/ /\ now' = now + Max(TT, 1) /\ pc' = "transportTimeout" /\ UNCHANGED <<need, phase, pstart, start>>
@@ -31,16 +35,20 @@ Call == /\ pc = "call"
                    ELSE IF now' - pstart > RT THEN /\ pc' = "adbTimeout" /\ UNCHANGED <<need, phase, pstart>>
                         ELSE /\ need' = need - k /\ pc' = "call" /\ UNCHANGED <<phase, pstart>>
                 /\ UNCHANGED start
-        /\ UNCHANGED <<tt0, rt0, total>>
+        /\ UNCHANGED <<tt0, rt0, total, gotdata>>
 PktDone == /\ pc = "pktdone"
-           /\ IF now - start > RT THEN pc' = "adbTimeout" /\ UNCHANGED <<need, phase, pstart>>
-              ELSE /\ pc' = "call" /\ phase' = "hdr" /\ need' = H /\ pstart' = now
-           /\ UNCHANGED <<tt0, rt0, total, now, start>>
+           /\ \/ /\ IF now - start > RT THEN pc' = "adbTimeout" /\ UNCHANGED <<need, phase, pstart>>       \* not the awaited packet
+                    ELSE /\ pc' = "call" /\ phase' = "hdr" /\ need' = H /\ pstart' = now
+                 /\ UNCHANGED <<start, gotdata>>
+              \/ /\ total # None /\ gotdata' = TRUE                                                      \* a data packet of the command's own stream
+                 /\ IF ~SkipTotal /\ now > total THEN pc' = "adbTimeout" /\ UNCHANGED <<need, phase, pstart, start>>
+                    ELSE /\ pc' = "call" /\ phase' = "hdr" /\ need' = H /\ pstart' = now /\ start' = now   \* the next read() starts
+           /\ UNCHANGED <<tt0, rt0, total, now>>
 Ended == pc \in {"adbTimeout", "transportTimeout"} /\ UNCHANGED vars
 Next == Call \/ PktDone \/ Ended
 Spec == Init /\ [][Next]_vars
 \* the wait ends within K * (read timeout + transport timeout) (+2 ticks), counting negative values as 0 and a call as >= 1 tick
-Bounded == now <= K * (Max(RT, 0) + Max(TT, 1)) + 2
+Bounded == now <= (IF gotdata THEN Max(total, 0) ELSE 0) + K * (Max(RT, 0) + Max(TT, 1)) + 2
 \* the effective timeouts are ordered transport <= read <= total
 Ordered == TT <= RT /\ (total # None => RT <= total)
 \* it can only end with one of the two timeout errors (no fabricated result): the model has no other exit
